@@ -14,4 +14,21 @@ var profiles = map[string]profile{
 		},
 		AddDirs: []string{"common", "txpool"},
 	},
+	// schedsim for the p2p request/response layer, rate limiter and connection gater over the simulated libp2p host.
+	"p2p": {
+		Files: map[string]fileRule{
+			"pkg/p2p/message_protocol.go":    {Swap: map[string]string{"sync": pSync, "time": pTime}, GoTasks: true, Selects: true},
+			"pkg/p2p/conngater.go":           {Swap: map[string]string{"sync": pSync, "time": pTime}, GoTasks: true, Selects: true},
+			"pkg/p2p/ratelimit.go":           {Swap: map[string]string{"sync": pSync, "time": pTime}, GoTasks: true, Selects: true},
+			"pkg/p2p/message.go":             {Swap: map[string]string{"time": pTime, "github.com/google/uuid": pUUID}},
+			"pkg/p2p/p2p.go":                 {Swap: map[string]string{"sync": pSync}},
+			"pkg/p2p/peer.go":                {Swap: map[string]string{"sync": pSync}},
+			"pkg/p2p/nat.go":                 {Swap: map[string]string{"sync": pSync}},
+			"pkg/p2p/extended_connection.go": {Swap: map[string]string{"sync": pSync}},
+			"pkg/p2p/gossipsub.go":           {Swap: map[string]string{"sync": pSync}},
+			"pkg/p2p/peerbook.go":            {Swap: map[string]string{"sync": pSync}},
+			"pkg/p2p/scoreKeeper.go":         {Swap: map[string]string{"sync": pSync}},
+		},
+		AddDirs: []string{"common", "p2p"},
+	},
 }
